@@ -186,7 +186,7 @@ Definition v_gopts (v : val) : gopts :=
    io.EOF), 8 iotest.HalfReader, 9 iotest.OneByteReader (short reads): no Seek method, so ToByteReadSeeker puts the
    discarding wrapper around them whether or not they have ReadByte *)
 Definition src_of_kind (k : N) : srckind :=
-  if (k =? 2) || (5 <=? k) then SrcPlain else SrcSeek.
+  if (k =? 2) || ((5 <=? k) && (k <=? 9)) then SrcPlain else SrcSeek.
 
 Definition run_load (fx : fixes) (input : val) : res (list irec) :=
   let kind := vN (vnth 0 input) in
@@ -213,6 +213,14 @@ Definition v_index_obs (codec : N) (recs : list irec) (qs : list bytes) : val :=
 Definition run_idxgen_with (fx : fixes) (input : val) : val :=
   let codec := vN (vnth 4 input) in
   let qs := map vB (vL (vnth 5 input)) in
+  if 10 <=? vN (vnth 0 input) then
+    (* source kinds 10 (bytes.Reader) / 11 (Read+Seek only): ReadOrGenerateIndex; the listing is
+       the length of the index's serialized form *)
+    match read_or_generate_index (hdr_lookup (vL (vnth 3 input))) codec (v_gopts (vnth 1 input)) (vB (vnth 2 input)) with
+    | Err e => VL [VT "err"; v_err e]
+    | Ok i => VL [VT "ok"; VN (blen (idx_write i)); v_getalls_sorted i qs]
+    end
+  else
   match run_load fx input with
   | Err e => VL [VT "err"; v_err e]
   | Ok recs => v_index_obs codec recs qs
@@ -224,6 +232,7 @@ Definition run_idxgen (input : val) : val := run_idxgen_with repaired input.
 Definition class_of_kind (k : N) : string :=
   if k =? 2 then "plain-reader" else if k =? 4 then "reader-at"
   else if (k =? 5) || (k =? 6) then "plain-bytereader"
+  else if 10 <=? k then "read-or-generate"
   else if 7 <=? k then "plain-short-or-eof-with-data" else "seekable".
 Definition fail3 (clause cls : string) : val := VL [VT "FAIL"; VT clause; VT cls].
 
